@@ -534,6 +534,24 @@ def shape_defs(rng, builtins):
         d = {'name': 'ShCtxHole%d' % i, 'items': [('errortype',)] + items}
         if well_formed(d, builtins):
             out.append(d)
+    # right contexts that are LARGE classes (ten or more ranges: the context function tests them through a search table or a long guard
+    # chain, not through a handful of arms), as the whole context (accept-only target) and followed by more (target with transitions),
+    # with ranges that straddle the ASCII / Latin-1 / BMP borders (C04, C13)
+    big = [('bi', 'alphabetic'), ('diff', ANY, ('bi', 'alphabetic')), ('alt', ('bi', 'XID_Continue'), chr_('.')),
+           ('diff', ANY, ('alt', ('alt', chr_('.'), chr_('_')), ('bi', 'XID_Start'))), ('bi', 'numeric'),
+           ('set', [('r', 0x30, 0x39), ('r', 0x41, 0x5A), ('c', 0x5F), ('r', 0x61, 0x7A), ('r', 0x7B, 0xA9), ('r', 0xC0, 0x17F), ('r', 0x391, 0x3C9), ('r', 0x7F0, 0x810),
+                    ('r', 0xFFF0, 0x1000F), ('r', 0x1F600, 0x1F64F), ('r', 0xD000, 0xD7FF), ('r', 0xE000, 0xE0FF)]),
+           ('diff', ANY, ('set', [('r', 0x0, 0x2F), ('r', 0x3A, 0x40), ('r', 0x5B, 0x60), ('r', 0x7C, 0x9F), ('r', 0x2000, 0x206F), ('r', 0x3000, 0x303F), ('c', 0xFEFF),
+                                  ('r', 0xFFF0, 0xFFFF), ('r', 0xE000, 0xF8FF), ('r', 0x10FFF0, 0x10FFFF)]))]
+    for i, cls in enumerate(big):
+        a, b = rng.sample([ord(ch) for ch in 'abcd'], 2)
+        for j, ctx in enumerate([cls, cat(cls, chr_(b))]):
+            items = [rule('simple', ('plus', chr_(a)), ctx), rule('simple', chr_(a)), rule('simple', ANY)]
+            if i % 3 == j:
+                items.insert(1, rule('simple', cat(chr_(a), chr_(b)), cat(('star', chr_(b)), cls)))
+            d = {'name': 'ShCtxBig%d' % (2 * i + j), 'items': [('errortype',)] + items}
+            if well_formed(d, builtins):
+                out.append(d)
     # two different large classes (two search tables) in one lexer, interleavable through clones (C15, C13)
     for i, (n1, n2) in enumerate([('XID_Start', 'XID_Continue'), ('alphabetic', 'numeric')]):
         out.append({'name': 'ShTwoTab%d' % i, 'items': [('errortype',), rule('simple', cat(('bi', n1), ('star', ('bi', n2)))), rule('simple', ('plus', ('bi', 'whitespace'))),
